@@ -18,6 +18,9 @@ class Ob:
 def _solve(args):
     smt2, timeout_ms, want_model = args[:3]
     hints = args[3] if len(args) > 3 else []
+    if len(args) > 4 and args[4] == "not-unsat":
+        # premise-consistency canary: `false` must NOT be derivable from the premises; z3 only, short budget
+        return _solve1(smt2, min(timeout_ms, 15000), False, second_opinion=False)
     r = _solve1(smt2, timeout_ms, want_model)
     if r[0] == "unknown" and hints:
         # counterexample search in a small scope: each hint is the same query plus a size restriction (e.g. n = 0).
@@ -69,7 +72,7 @@ def _solve1(smt2, timeout_ms, want_model, second_opinion=True):
 def discharge_all(run, obs, timeout_ms=20000, procs=None, on_sat=None):
     """obs: list of Ob. Folds into run; returns list of (Ob, status, detail)."""
     procs = procs or min(16, os.cpu_count() or 4)
-    jobs = [(o.smt2, timeout_ms, True, o.hints) for o in obs]
+    jobs = [(o.smt2, timeout_ms, True, o.hints, o.expect_sat) for o in obs]
     if len(jobs) <= 2 or os.environ.get("VERIF_SERIAL"):
         res = [_solve(j) for j in jobs]
     else:
@@ -78,6 +81,10 @@ def discharge_all(run, obs, timeout_ms=20000, procs=None, on_sat=None):
     out = []
     for o, (status, detail, dt, backend) in zip(obs, res):
         name = f"{o.fn}::{o.clause}::{o.label}"
+        if o.expect_sat == "not-unsat":
+            # quantified premises: the solver cannot exhibit a model, but it must not be able to derive `false` from them
+            run.canary(name, status != "unsat")
+            out.append((o, status, detail)); continue
         if o.expect_sat:
             run.canary(name, status == "sat")
             out.append((o, status, detail)); continue
@@ -206,10 +213,11 @@ class FnVerifier:
         self.default_replay = None
         self.scope_hints = []        # extra constraints tried ONLY to find counterexamples when the solver says unknown
 
-    def add(self, clause, label, pc, claim, lineno=None, expect_sat=False, replay=None):
-        hints = [to_smt2(self.axioms, list(pc) + [h], claim) for h in self.scope_hints]
-        self.obs.append(Ob(self.qualname, clause, label, to_smt2(self.axioms, pc, claim), lineno, expect_sat,
-                           pc=list(pc), claim=claim, axioms=self.axioms, replay=replay or self.default_replay, hints=hints))
+    def add(self, clause, label, pc, claim, lineno=None, expect_sat=False, replay=None, axioms=None):
+        axioms = self.axioms if axioms is None else axioms
+        hints = [to_smt2(axioms, list(pc) + [h], claim) for h in self.scope_hints]
+        self.obs.append(Ob(self.qualname, clause, label, to_smt2(axioms, pc, claim), lineno, expect_sat,
+                           pc=list(pc), claim=claim, axioms=axioms, replay=replay or self.default_replay, hints=hints))
         self.obs[-1].hint_terms = list(self.scope_hints)
 
     def add_engine_obligations(self, ex):
